@@ -105,7 +105,22 @@ pub struct FsState {
 pub fn norm(path: &Path) -> String {
     let s = path.to_str().unwrap_or("<non-utf8>").replace('\\', "/");
     let s = s.strip_prefix("./").unwrap_or(&s).to_string();
-    s.trim_end_matches('/').to_string()
+    let s = s.trim_end_matches('/').to_string();
+    // the current directory is the root of the simulated tree
+    if s == "." {
+        String::new()
+    } else {
+        s
+    }
+}
+
+/// POSIX: an empty pathname names nothing (`open("")`, `opendir("")` fail with ENOENT).
+fn enoent_if_empty(path: &Path) -> io::Result<()> {
+    if path.as_os_str().is_empty() {
+        Err(io::Error::new(io::ErrorKind::NotFound, "empty path (ENOENT)"))
+    } else {
+        Ok(())
+    }
 }
 
 pub fn parent_of(path: &str) -> String {
@@ -354,6 +369,12 @@ impl SimFilesystem for SimFs {
                 self.end(index, OpKind::SyncParent, &p, false, 0, Some("io_error"), false);
                 Err(Self::err(&OpKind::SyncParent))
             }
+            // what `StdFilesystem::sync_parent` does: open `path.parent()` and sync it; a bare file name has the
+            // parent "", which cannot be opened
+            _ if path.parent().map(|parent| enoent_if_empty(parent).is_err()).unwrap_or(false) => {
+                self.end(index, OpKind::SyncParent, &p, false, 0, None, false);
+                Err(enoent_if_empty(Path::new("")).unwrap_err())
+            }
             d => {
                 {
                     let mut st = self.lock();
@@ -383,6 +404,10 @@ impl SimFilesystem for SimFs {
             Decision::Fail => {
                 self.end(index, OpKind::ReadDir, &p, false, 0, Some("io_error"), false);
                 Err(Self::err(&OpKind::ReadDir))
+            }
+            _ if enoent_if_empty(path).is_err() => {
+                self.end(index, OpKind::ReadDir, &p, false, 0, None, false);
+                Err(enoent_if_empty(path).unwrap_err())
             }
             d => {
                 let list: Vec<PathBuf> = {
